@@ -461,6 +461,47 @@ def kdf_algorithm_name(ctx, rng):
                                       f"(unauthenticated) member the token no longer decrypts: {d.exc!r}", {**case, "token": o.value})
 
 
+def unlisted_recipient_beside_a_listed_one(ctx, rng):
+    """a general JSON JWE with several recipients, one of which names an algorithm the caller did not list (or nobody knows): the call fails - also
+    when the caller is content with any one recipient (verify_all_recipients=False) and its own recipient comes first"""
+    j = J.load()
+    pt = b"c05 two recipients"
+    mine = gen.new_oct(128)
+    rsa = gen.new_rsa(2048)
+    for other_alg, other_key, listed in (("RSA1_5", rsa, False), ("A256KW", gen.new_oct(256), False), ("RSA-OAEP", rsa, False), ("A128KW", gen.new_oct(128), True)):
+        for order in ("mine-first", "mine-last"):
+            specs = [("A128KW", {**mine, "kid": "mine"}, None), (other_alg, {**other_key, "kid": "theirs"}, None)]
+            if order == "mine-last":
+                specs.reverse()
+            tok = g.make("general", "A128GCM", specs, pt, params_in="recipient").token
+            variants = [("as-made", tok)]
+            if not listed:
+                t2 = copy.deepcopy(tok)
+                for r in t2["recipients"]:
+                    if r["header"].get("kid") == "theirs":
+                        r["header"]["alg"] = "FOO-KW"            # a name nobody knows, in the unauthenticated per-recipient header
+                variants.append(("unknown-name", t2))
+            for vname, t in variants:
+                for any_mode in (True, False):
+                    ctx.ev()
+                    reg = j.jwe.JWERegistry(algorithms=["A128KW", "A128GCM"], verify_all_recipients=not any_mode)
+                    o = call(j.jwe.decrypt_json, copy.deepcopy(t), j.key({**mine, "kid": "mine"}), registry=reg)
+                    ctx.count("calls")
+                    ctx.count("unlisted_recipient_cases")
+                    ctx.nontrivial(("unlisted-recipient", other_alg, order, vname, any_mode))
+                    ctx.cell("decrypt", "general", "unlisted-recipient-" + ("any" if any_mode else "all"))
+                    case = {"unlisted_recipient": True, "other_alg": other_alg if vname == "as-made" else "FOO-KW", "order": order, "any_recipient_mode": any_mode, "token": t}
+                    if listed:
+                        if any_mode and (not o.ok or o.value.plaintext != pt):
+                            ctx.violation(f"allowed-name-rejected:decrypt:{o.etype}", f"two A128KW recipients, content with any: {o.exc!r}", case)
+                        continue
+                    if o.ok:
+                        ctx.violation("unallowed-name-used:decrypt:recipient-beside-a-listed-one", f"decrypt_json ({'any' if any_mode else 'all'}-recipient mode, {order}) returned a plaintext "
+                                      f"for a JWE one of whose recipients names {case['other_alg']!r}; allowed: ['A128KW', 'A128GCM']", case)
+                    elif o.etype != "UnsupportedAlgorithmError":
+                        ctx.open(f"unlisted-recipient-refused-with:{o.etype}")
+
+
 def run_shard(ctx):
     J.load()
     rng = ctx.rng
@@ -497,6 +538,8 @@ def run_shard(ctx):
                 k += 1
                 if k % ctx.nshards == ctx.shard and not (z is None):
                     jwe_ops(mon, "A128KW", "A128GCM", copy.deepcopy(z), copy.deepcopy(allow), rng.choice(["algorithms", "registry", "list+registry"]), rng)
+        if ctx.shard == 3:
+            unlisted_recipient_beside_a_listed_one(ctx, rng)
         if ctx.shard == 2:
             J.register_drafts()
             mon.world.drafts = True
@@ -521,7 +564,9 @@ def replay(ctx, case):
     J.load()
     mon = Mon(ctx)
     try:
-        if case.get("kdf_algorithm_name"):
+        if case.get("unlisted_recipient"):
+            unlisted_recipient_beside_a_listed_one(ctx, ctx.rng)
+        elif case.get("kdf_algorithm_name"):
             J.register_drafts()
             kdf_algorithm_name(ctx, ctx.rng)
         elif "name" in case:
